@@ -1004,7 +1004,10 @@ def run(ctx):
                     for e in list(out["keys"]):
                         scramble(e, rng, e.get("kty") if e.get("kty") in REQ else "oct")
                     scramble(out, rng, None)
-                    now = [(k.kid, k.thumbprint(), scalars(k.as_dict())) for k in keys]
+                    try:
+                        now = [(k.kid, k.thumbprint(), scalars(k.as_dict())) for k in keys]
+                    except Exception as exc:   # a scrambled export reached the key itself
+                        now = [("re-inspection raised", repr(exc), None)]
                     found = [call(kset.get_by_kid, kid)[0] == "ok" for kid, _, _ in state]
                     if now != state or not all(found):
                         ctx.violation({"kind": "export-aliases-key", "via": "KeySet.as_dict"},
